@@ -11,12 +11,15 @@ import (
 	"errors"
 	"fmt"
 	"io"
+	"net"
 	"net/http"
 	"net/url"
+	"os"
 	"sort"
 	"strings"
 	"sync"
 	"sync/atomic"
+	"syscall"
 	"time"
 )
 
@@ -30,6 +33,7 @@ type Res struct {
 	HdrLinks  []string `json:"hdr_links,omitempty"`  // html: URLs announced in a Link response header (rel=next ...)
 	FailFirst int      `json:"fail_first,omitempty"` // the first N attempts fail ...
 	FailKind  int      `json:"fail_kind,omitempty"`  // ... with this status (0 = transport error); -1 = always fail
+	ErrKind   int      `json:"err_kind,omitempty"`   // which transport error a failing attempt returns (see transportErrors)
 	BodyErr   bool     `json:"body_err,omitempty"`   // the 200 answer's body breaks off half-way with a read error
 }
 
@@ -79,6 +83,25 @@ func (n *Net) Requests() int {
 }
 
 var errConn = errors.New("verifsim: simulated connection failure")
+
+// transportErrors are what net/http hands back for the usual ways a fetch dies before a response exists: every one of
+// them is "an error from client.Do" for the archiver's retry loop, whatever its type.
+var transportErrors = []error{
+	errConn,
+	io.EOF, // server closed the connection without answering
+	io.ErrUnexpectedEOF,
+	&net.OpError{Op: "read", Net: "tcp", Err: os.NewSyscallError("read", syscall.ECONNRESET)},
+	&net.OpError{Op: "write", Net: "tcp", Err: os.NewSyscallError("write", syscall.EPIPE)},
+	&net.OpError{Op: "dial", Net: "tcp", Err: os.NewSyscallError("connect", syscall.ECONNREFUSED)},
+	&net.DNSError{Err: "no such host", Name: "host.invalid", IsNotFound: true},
+	timeoutErr{},
+}
+
+type timeoutErr struct{}
+
+func (timeoutErr) Error() string   { return "verifsim: i/o timeout" }
+func (timeoutErr) Timeout() bool   { return true }
+func (timeoutErr) Temporary() bool { return true }
 
 func (n *Net) RoundTrip(req *http.Request) (*http.Response, error) {
 	at := time.Since(n.t0).Milliseconds() // arrival time, before any stall the harness injects
@@ -136,7 +159,7 @@ func (n *Net) RoundTrip(req *http.Request) (*http.Response, error) {
 	n.log = append(n.log, f)
 	n.mu.Unlock()
 	if fail && status == 0 {
-		return nil, errConn
+		return nil, transportErrors[((r.ErrKind%len(transportErrors))+len(transportErrors))%len(transportErrors)]
 	}
 	if fail {
 		body = []byte("temporary failure")
